@@ -155,8 +155,9 @@ static void gen_form(const Form& f, int mode, bool thorough, FILE* out) {
     //   immOv   (use = true) value of every immediate operand
     //   maskOv  -1 variant's own decoration, 0 no mask, 1 {k} merge, 2 {k}{z}
     //   bpos/bid  the free vector register operand number bpos (or the VSIB index when bpos == 100) gets the id bid
-    auto one = [&](int v, bool useImm, int64_t immOv, int maskOv, int bpos, int bid) {
-      Inst in; in.f = f.id; in.n = f.name; in.m = mode;
+    //   optOv   option bits (lib_x86forms.h O_VEX / O_VEX3 / O_EVEX) added to the request: the encoding selectors
+    auto one = [&](int v, bool useImm, int64_t immOv, int maskOv, int bpos, int bid, uint32_t optOv = 0) {
+      Inst in; in.f = f.id; in.n = f.name; in.m = mode; in.opt = optOv;
       int slot = 0; bool bad = false;
       std::string firstClass; int firstId = -1, prevId = -1; std::string prevClass;
       int nfree = 0;
@@ -283,6 +284,14 @@ static void gen_form(const Form& f, int mode, bool thorough, FILE* out) {
           if (!thorough && pos > 0 && bid < 15) continue;       // quick tier: 0 / 7 / 8 in the first vector position only, 15 | 16 | 17 | 31 in every position
           g_dim = "bid"; one(0, false, 0, 0, pos < nvecfree ? pos : 100, bid);
         }
+    }
+    // ---- dimension: encoding selectors {vex} {vex3} {evex} on every VEX- or EVEX-encodable form, low register ids, no mask (the
+    //      unselected request is base variant 0), plus {evex} with one id >= 16.  Which encoding results is the assembler's
+    //      answer (recorded bytes); requests it refuses are dropped by the check.
+    if (mode == 64 && (f.pk == "V" || f.pk == "E")) {
+      g_dim = "sel";
+      for (uint32_t sel : {uint32_t(O_VEX), uint32_t(O_VEX3), uint32_t(O_EVEX)}) one(0, false, 0, 0, -1, 0, sel);
+      if (nvecfree > 0) one(0, false, 0, 0, 0, 16, O_EVEX);
     }
   }
 }
